@@ -349,6 +349,10 @@ def check_objc_types(res, m, texts, replay):
                 for f in m.union_all_fields(d):
                     expect_once(res, replay, cfg, 'tag', r'^- \(BOOL\)is%s;' % pascal(f.name), text,
                                 {'type': cls, 'tag': f.name}, shape_of(m, f.type))
+                    # the tag's case of the <Union>Tag enumeration
+                    expect_once(res, replay, cfg, 'tag_enumerator', r'^\s*%s%s,\s*$' % (cls, pascal(f.name)),
+                                text, {'type': cls, 'tag': f.name},
+                                'inherited' if f not in m.own_fields(d) else 'own')
         for r in ns.defs:
             if r.kind == 'route':
                 nm = pre + pascal(r.name) + ('' if r.version == 1 else 'V%d' % r.version)
